@@ -81,5 +81,25 @@ Section Orc.
             | Ok (p, m) => L [A $"ok"; A p; sx_opt A m]
             | Exn e => sx_exn e
             end)
+    else if is_cmd cmd "cfg_fn" then
+      (* function-level ties: (cfg_fn NAME optHOME (s1 s2 ...)) applies one helper of the model to every string *)
+      let name := sx_str (a 0%nat) in
+      let home := home_of (a 1%nat) in
+      let strs := map sx_str (sx_list (a 2%nat)) in
+      let sx_res {T} (f : T -> sx) (r : res T) : sx := match r with Ok x => L [A $"ok"; f x] | Exn e => sx_exn e end in
+      if str_eqb name $"unescape" then Some (L (map (fun s => A (unescape s)) strs))
+      else if str_eqb name $"extract" then
+        Some (L (map (fun s => sx_res (fun pm => L [A (fst pm); sx_opt A (snd pm)]) (extract_message s)) strs))
+      else if str_eqb name $"anchor" then
+        Some (L (map (fun s => let pe := strip_exact_anchor s in L [A (fst pe); sx_of_bool (snd pe)]) strs))
+      else if str_eqb name $"classify" then
+        Some (L (map (fun s => A (match classify_token s with
+                                  | KUrl => $"url" | KVariable => $"variable" | KAbsolute => $"absolute" | KHome => $"home"
+                                  | KUserHome => $"user_home" | KRelative => $"relative" | KBare => $"bare" end)) strs))
+      else if str_eqb name $"tildes" then Some (L (map (fun s => sx_res A (expand_tildes home s)) strs))
+      else if str_eqb name $"setting" then Some (L (map (fun s => sx_res sx_effect (apply_setting o_expu true s)) strs))
+      else if str_eqb name $"line" then
+        Some (L (map (fun s => sx_res (sx_opt sx_effect) (step home o_expu true s)) strs))
+      else None
     else None.
 End Orc.
